@@ -95,12 +95,20 @@ async def realise(ctx, sq, n, ops, rnd):
             except (ConnectionError, OSError):
                 pass
         elif op == 'cc':
+            # an orderly close: FIN now, the socket itself is closed after the peer's EOF was seen.  (close() with data of the
+            # other direction still in flight makes the kernel answer with RST: an abort, which the statement does not cover.)
             ev.append({'e': 'Closed', 'side': 'c'})
-            writer.close()
+            try:
+                writer.write_eof()
+            except (OSError, RuntimeError):
+                writer.close()
             closed = 'c'
         elif op == 'sc':
             ev.append({'e': 'Closed', 'side': 's'})
-            sw.close()
+            try:
+                sw.write_eof()
+            except (OSError, RuntimeError):
+                sw.close()
             closed = 's'
         await asyncio.sleep(rnd.choice([0, 0.001, 0.01]))
     # wait for the other side to see EOF (Squid propagates the close), then close everything
